@@ -276,3 +276,51 @@ PLANS["C20"] = {
     "level_note": "Trusted: reference model, export-step probes (never inside a lock).",
     "design_ref": "3/C20",
 }
+
+
+def udp_live(name, scenario, backend="mio", extra=None, **kw):
+    s = {"name": name, "bin": "udp_live", "args": ["--scenario", scenario, "--backend", backend] + (extra or []), "crash_is_violation": True, "timeout_s": 600}
+    s.update(kw)
+    return s
+
+
+def c06_steps(tier):
+    if tier == "quick":
+        return [udp_live("contract_mio_w2", "contract", "mio", ["--workers", "2", "--datagrams", "2500"]),
+                udp_live("contract_uring_w1", "contract", "uring", ["--workers", "1", "--datagrams", "1200"]),
+                udp_live("contract_mio_scrape3", "contract", "mio", ["--workers", "1", "--datagrams", "800", "--max_scrape", "3"])]
+    out = []
+    for be in ("mio", "uring"):
+        for w in (1, 2, 3):
+            for ms in (0, 1, 3, 70, 255):
+                out.append(udp_live("contract_%s_w%d_s%d" % (be, w, ms), "contract", be, ["--workers", str(w), "--datagrams", "12000", "--max_scrape", str(ms)]))
+    return out
+
+
+PLANS["C06"] = {
+    "title": "UDP request/reply contract: one reply, to the sender, no amplification",
+    "level": "exploration",
+    "engine": "live",
+    "technique": "offline checker over the recorded datagram log of loopback clients against the real in-process tracker (mio and io_uring), expectations from the reference BEP 15 decoder and the harness's table of issued connection ids; quiescence decided on the tracker's datagram counter",
+    "packages": ["vudp"],
+    "parallel": 6,
+    "steps": lambda tier, seed: c06_steps(tier),
+    "min_evaluations": {"quick": 20000, "thorough": 1000000},
+    "assumptions": ["loopback neither duplicates nor reorders; a request counts as received only if the tracker's udp.datagram_seen counter accounts for every datagram sent (otherwise inconclusive)",
+                    "which of the tracker's sockets sends a reply is not constrained by the statement (reported as an observation for the io_uring dual-stack case)"],
+    "level_text": "Exploration on the live tracker: eight client sockets (six IPv4 hosts, ::1, an IPv4 host through the dual-stack IPv6 socket) send connects, announces (all events, extension bytes), scrapes of 1..100 hashes with known per-torrent counts, answerable and unanswerable malformed requests, truncations, header bit flips and random bytes, with valid / stale (mock clock) / foreign-address / forged / other-tracker-instance / bit-flipped connection ids; every reply is matched to its request by socket and transaction id and checked for count (at most one; exactly one where required), kind, family, scrape order and cut, connect-reply size; datagrams from source port 0 (raw socket) must create no state.",
+    "level_note": "Trusted: reference decoder, the windowed sender, the tracker-side datagram counter hook.",
+    "design_ref": "3/C06",
+}
+
+# ---- live UDP wiring added to the storage-level checks
+_c05_steps = PLANS["C05"]["steps"]
+PLANS["C05"]["steps"] = lambda tier, seed: _c05_steps(tier, seed) + [udp_live("window_mio", "window", "mio", ["--workers", "2"])] + ([udp_live("window_uring", "window", "uring", ["--workers", "2"])] if tier == "thorough" else [])
+PLANS["C05"]["level_text"] += " On the wire: a live tracker (mio; io_uring in thorough) under the mock clock answers an announce carrying an issued id iff the reference predicate holds at t_issue, +age-1, +age, +age+1, -60, -61, from the issuing address (any source port) and never from another address."
+
+_c10_steps = PLANS["C10"]["steps"]
+PLANS["C10"]["steps"] = lambda tier, seed: _c10_steps(tier, seed) + [udp_live("expiry_udp_mio", "expiry", "mio")] + ([udp_live("expiry_udp_uring", "expiry", "uring")] if tier == "thorough" else [])
+
+_c11_steps = PLANS["C11"]["steps"]
+PLANS["C11"]["steps"] = lambda tier, seed: _c11_steps(tier, seed) + [udp_live("access_udp_allow_mio", "access", "mio", ["--mode", "allow"])] + (
+    [udp_live("access_udp_deny_mio", "access", "mio", ["--mode", "deny"]), udp_live("access_udp_allow_uring", "access", "uring", ["--mode", "allow"]), udp_live("access_udp_deny_uring", "access", "uring", ["--mode", "deny"])] if tier == "thorough" else [])
